@@ -29,7 +29,7 @@ def composition(n, rnd, maxparts=4):
     return tuple(b - a for a, b in zip([0] + cuts, cuts + [n]))
 
 
-def random_pair(rnd, cls=None, time_single=None):
+def random_pair(rnd, cls=None, time_single=None, held=None):
     """(NumPy twin, Dask-backed signal on sentinel blocks), random shape / dtype / chunks"""
     cls = cls or rnd.choice(["Signal", "BasebandSignal", "DualPolarizationSignal", "IntensitySignal",
                              "FullStokesSignal", "RadioSignal"])
@@ -54,7 +54,20 @@ def random_pair(rnd, cls=None, time_single=None):
     K = dr.CLASSES[cls]
     if cls == "DualPolarizationSignal":
         kw["pol_type"] = rnd.choice(["linear", "circular"])
-    return K(a, **kw), K(ds.sentinel_array(a.copy(), chunks), **kw), chunks
+    # what the graph of the input holds: sentinel tasks that make a fresh block at every run, blocks
+    # persisted in memory, or one concrete array (from_array) cut into the chunks
+    held = held or rnd.choice(["sentinel", "sentinel", "persisted", "from_array"])
+    if held == "from_array":
+        zd = K(a.copy(), **kw).to_dask_array()
+        if rnd.random() < 0.5:
+            zd = zd.rechunk(chunks)
+        else:
+            chunks = zd.data.chunks
+    else:
+        zd = K(ds.sentinel_array(a.copy(), chunks), **kw)
+        if held == "persisted":
+            zd = zd.persist(scheduler="synchronous")
+    return K(a, **kw), zd, chunks
 
 
 def _dm_for(z, rnd):
@@ -113,6 +126,23 @@ def driver_ops(zn, rnd):
     ops.append(("map_blocks", [], lambda z: pb.signal_transform(np.isfinite)(z, signal_type=pb.Signal), False))
     ops.append(("rechunk", [], lambda z: z.rechunk(), False))
     ops.append(("to_dask", [], lambda z: z.to_dask_array(), False))
+    # the pb.fft family applied directly to the data (every name, the axes it transforms)
+    cplx = zn.dtype.kind == "c"
+    fam = [("fft", 1), ("ifft", 1)] + ([("hfft", 1), ("irfft", 1)] if cplx else [("rfft", 1), ("ihfft", 1)])
+    if zn.ndim >= 2:
+        fam += [("fft2", 2), ("ifft2", 2), ("fftn", 2), ("ifftn", 2)] + ([("irfft2", 2), ("irfftn", 2)] if cplx else [("rfft2", 2), ("rfftn", 2)])
+    for _ in range(2):
+        fname, nax = rnd.choice(fam)
+        if nax == 1:
+            ax = rnd.randrange(zn.ndim)
+            kwf, axes = {"axis": ax}, [ax]
+        else:
+            axes = sorted(rnd.sample(range(zn.ndim), 2))
+            kwf = {"axes": tuple(axes)}
+        if fname in ("irfft", "hfft", "irfft2", "irfftn") and zn.shape[(kwf.get("axes") or (kwf["axis"],))[-1]] < 2:
+            continue       # a one-sample half spectrum has no even length: scipy / dask disagree with themselves there
+        ops.append(("fft_axis", [x + 1 for x in axes],
+                    (lambda fname, kwf: (lambda z: pb.Signal(getattr(pb.fft, fname)(z.data, **kwf), sample_rate=z.sample_rate)))(fname, kwf), True))
     if zn.ndim >= 2:
         C = zn.shape[1]
         a0 = rnd.randint(0, C - 1)
@@ -154,8 +184,8 @@ def driver_ops(zn, rnd):
     return ops
 
 
-def axis_chunked(name, z):
-    axes = {"snippet": (0,)}.get(name, dr.FFT_AXES.get(name, ()))
+def axis_chunked(name, z, a=()):
+    axes = {"snippet": (0,), "fft_axis": tuple(x - 1 for x in a)}.get(name, dr.FFT_AXES.get(name, ()))
     return isinstance(z.data, da.Array) and any(len(z.data.chunks[ax]) > 1 for ax in axes if ax < z.ndim)
 
 
@@ -165,11 +195,47 @@ def run_driver(n, rnd, schedules, out):
     for i in range(n):
         zn, zd, chunks = random_pair(rnd)
         ops = driver_ops(zn, rnd)
-        name, a, f, fft = rnd.choice(ops)
+        _drive(out, zn, zd, chunks, rnd.choice(ops), schedules[i % len(schedules)])
+
+
+FFT_FAMILY = ["fft", "ifft", "fft2", "ifft2", "fftn", "ifftn", "rfft", "irfft", "rfft2", "irfft2", "rfftn", "irfftn",
+              "hfft", "ihfft"]
+
+
+def run_fft_family(n, rnd, schedules, out):
+    """pb.fft.<name> applied directly to the data of a signal: every member of the family in turn,
+    real and complex samples, inputs whose graph holds sentinel tasks / persisted blocks / one concrete
+    array, transformed axes in one chunk (mostly) or chunked (refusal expected)."""
+    for i in range(n):
+        fname = FFT_FAMILY[i % len(FFT_FAMILY)]
+        cplx = fname in ("irfft", "irfft2", "irfftn", "hfft") or (fname not in ("rfft", "rfft2", "rfftn", "ihfft") and rnd.random() < 0.7)
+        cls = rnd.choice(["BasebandSignal", "DualPolarizationSignal"]) if cplx else rnd.choice(["IntensitySignal", "RadioSignal"])
+        held = ["persisted", "from_array", "sentinel"][(i // len(FFT_FAMILY) + i) % 3]
+        zn, zd, chunks = random_pair(rnd, cls=cls, time_single=True, held=held)
+        nax = 1 if fname in ("fft", "ifft", "rfft", "irfft", "hfft", "ihfft") else 2
+        axes = sorted(rnd.sample(range(zn.ndim), nax))
+        if rnd.random() < 0.7 and isinstance(zd.data, da.Array):      # the transformed axes in one chunk
+            zd = zd.rechunk({ax: -1 for ax in axes})
+            chunks = zd.data.chunks
+        if fname in ("irfft", "hfft", "irfft2", "irfftn") and zn.shape[axes[-1]] < 2:
+            continue
+        kwf = {"axis": axes[0]} if nax == 1 else {"axes": tuple(axes)}
+        f = (lambda fname, kwf: (lambda z: pb.Signal(getattr(pb.fft, fname)(z.data, **kwf), sample_rate=z.sample_rate)))(fname, kwf)
+        _drive(out, zn, zd, chunks, ("fft_axis", [x + 1 for x in axes], f, True), schedules[i % len(schedules)], label="pb.fft." + fname)
+
+
+def _drive(out, zn, zd, chunks, op, sch, label=None):
+    """one operation on a (twin, Dask-backed) pair: events, lazy announcement, values under scheduler
+    sch, a second compute, and the input recomputed afterwards"""
+    for _once in (0,):
+        name, a, f, fft = op
+        i = 0
+        schedules = [sch]
         kind = "container" if name in ("rechunk", "to_dask") else "transform"
-        what = "%s on %s%s chunks %s" % (name, type(zn).__name__, list(zn.shape), [list(c) for c in chunks])
+        what = "%s on %s%s chunks %s" % (label or name, type(zn).__name__, list(zn.shape), [list(c) for c in chunks])
         case = {"driver": True}
         pre = dr.summary(zd)
+        zn0 = np.array(zn.data, copy=True)
         s0, t0 = ds.sentinel_count(), ds.task_count()
         try:
             rn = f(zn)
@@ -185,7 +251,7 @@ def run_driver(n, rnd, schedules, out):
         evname = {"snippet_int": "tslice", "fast_len": "tslice", "concat": "splitcat"}.get(name, name)
         if raised is not None:
             out.events.append(dr.event(evname, kind, a, True, pre, pre, s0, s1, t0, t1))
-            if not (axis_chunked(name, zd) and isinstance(raised, ValueError)):
+            if not (axis_chunked(name, zd, a) and isinstance(raised, ValueError)):
                 out.viol.append(("raises:%s" % name, "Dask path raised %r where the NumPy path succeeds | %s" % (raised, what)))
             else:
                 out.note("refusals")
@@ -209,6 +275,19 @@ def run_driver(n, rnd, schedules, out):
                 continue
         if kind == "container":
             rn = zn
+        if isinstance(rd.data, da.Array):
+            # (a) a second compute of the same lazy result gives the same samples; (b) the input
+            # collection is what it was (computing a derived result must not touch what the graph holds)
+            try:
+                g2 = np.asarray(rd.compute(scheduler="synchronous").data)
+                g1 = np.asarray(got.data)
+                if g1.shape != g2.shape or g1.tobytes() != g2.tobytes():
+                    out.viol.append(("recompute-differs:%s" % name, "computing the same lazy result twice gives different samples | %s" % what))
+                zin = np.asarray(zd.compute(scheduler="synchronous").data)
+                for c, m, amb in dr.compare_values(zin, np.asarray(zn0), False, "the INPUT recomputed after its result was computed | " + what):
+                    out.viol.append(("input-changed:%s" % name, m))
+            except Exception as e:  # noqa
+                out.viol.append(("recompute-raises:%s" % name, "%r | %s" % (e, what)))
         if fft:
             dr.note_fft(np.asarray(got.data), np.asarray(rn.data))
         for c, m, amb in dr.compare_signals(got, rn, fft, what + " compute(%s)" % dr.sched_name(sch)):
@@ -258,6 +337,69 @@ def run_binary(n, rnd, out):
                 out.ambiguous += 1
             else:
                 out.viol.append(("%s:binary-ufunc" % c, m))
+
+
+# ------------------------------------------------------------------ same-object histories
+def run_histories(n, rnd, out):
+    """Histories on ONE Dask-backed signal object next to its NumPy twin: looks (compute under some
+    scheduler, persist, np.asarray) interleaved with the sanctioned in-place changes (x += y, x *= c,
+    np.add(x, y, out=x), np.multiply(x, arr, out=x)).  Every look must show the samples the twin has now."""
+    for i in range(n):
+        zn, zd, chunks = random_pair(rnd, cls=rnd.choice(["Signal", "IntensitySignal", "BasebandSignal", "RadioSignal"]))
+        arr = np.asarray(zn.data)
+        step_arr = (arr * 0.25 + 1).astype(arr.dtype)
+        K = type(zn)
+        meta = {k: getattr(zn, k) for k in ("sample_rate", "start_time", "center_freq", "freq_align", "chan_bw", "meta")
+                if hasattr(zn, k) and not (k == "chan_bw" and isinstance(zn, pb.BasebandSignal))}
+        step_n = K(step_arr.copy(), **meta)
+        step_d = K(ds.sentinel_array(step_arr.copy(), tuple(composition(k, rnd, 3) for k in zn.shape)), **meta)
+        hist = []
+        for j in range(rnd.randint(3, 6)):
+            act = rnd.choice(["compute", "compute", "persist", "asarray", "iadd-signal", "iadd-dask-signal", "imul-scalar",
+                              "add-out", "mul-out-array"]) if j else "compute"
+            hist.append(act)
+            what = "history %s on one %s%s chunks %s" % (" > ".join(hist), K.__name__, list(zn.shape), [list(c) for c in chunks])
+            pre = dr.summary(zd)
+            s0, t0 = ds.sentinel_count(), ds.task_count()
+            try:
+                if act in ("compute", "persist", "asarray"):
+                    sch = rnd.choice(["synchronous", "threads"])
+                    if act == "compute":
+                        look = zd.compute(scheduler=sch)
+                    elif act == "persist":
+                        look = zd.persist(scheduler=sch)
+                    else:
+                        look = K.like(zn, np.asarray(zd))
+                    post = dr.summary(look) if act != "asarray" else dr.summary(zd)
+                    out.events.append(dr.event({"compute": "peek"}.get(act, act) if act != "persist" else "persist", "run", [], False,
+                                               pre, post if act != "compute" else dr.summary(zd),
+                                               s0, ds.sentinel_count(), t0, ds.task_count()))
+                    got = look.compute(scheduler="synchronous") if isinstance(look.data, da.Array) else look
+                    for c, m, amb in dr.compare_signals(got, zn, False, what):
+                        out.viol.append(("%s:history" % c, m))
+                    if act == "compute" and isinstance(look.data, da.Array):
+                        out.viol.append(("peek-not-computed:history", "compute() returned a Dask-backed signal | " + what))
+                    continue
+                if act == "iadd-signal":
+                    zn += step_n
+                    zd += step_n
+                elif act == "iadd-dask-signal":
+                    zn += step_n
+                    zd += step_d
+                elif act == "imul-scalar":
+                    zn *= 2
+                    zd *= 2
+                elif act == "add-out":
+                    np.add(zn, step_n, out=zn)
+                    np.add(zd, step_n, out=zd)
+                else:
+                    np.multiply(zn, step_arr, out=zn)
+                    np.multiply(zd, step_arr, out=zd)
+            except Exception as e:  # noqa
+                out.viol.append(("raises:history", "%r | %s" % (e, what)))
+                break
+            out.events.append(dr.event("ufunc", "transform", [], False, pre, dr.summary(zd), s0, ds.sentinel_count(), t0, ds.task_count()))
+        out.note("driver_op:history")
 
 
 # ------------------------------------------------------------------ concatenate of differently chunked pieces
@@ -362,7 +504,8 @@ def run_readers(rnd, out, repo, nreads=6):
         for j in range(nreads):
             off = rnd.randint(0, shape[0] // 2)
             n = rnd.randint(1, shape[0] // 2)
-            chunks = rnd.choice([None, tuple(composition(k, rnd, 3) for k in (n,) + shape[1:]), (-1,) + (1,) * (len(shape) - 1)])
+            chunks = rnd.choice([None, tuple(composition(k, rnd, 3) for k in (n,) + shape[1:]), (-1,) + (1,) * (len(shape) - 1),
+                                 (composition(n, rnd, 4),) + (-1,) * (len(shape) - 1)])
             kwr = {} if chunks is None else {"chunks": chunks}
             c0 = CountingReader.calls
             try:
@@ -380,6 +523,31 @@ def run_readers(rnd, out, repo, nreads=6):
             for c, m, amb in dr.compare_signals(got, zn, False, "CountingReader.read(%d, %d, use_dask, chunks=%r)" % (off, n, chunks)):
                 out.viol.append(("%s:reader" % c, m))
     twin_readers(rnd, out)
+    # 1b. a reader whose _read_array depends on the whole span read (not block-local), every kind of chunks
+    for sigtype, dtype, shape, kw in [
+            (pb.BasebandSignal, np.complex128, (300, 3), {"center_freq": 1.4 * u.GHz}),
+            (pb.Signal, np.float64, (256, 2, 2), {}),
+            (pb.BasebandSignal, np.complex64, (200, 2), {"center_freq": 1.4 * u.GHz})]:
+        r = dr.SpanReader(shape=shape, dtype=dtype, signal_type=sigtype, sample_rate=2 * u.MHz, start_time=dr.EPOCH, **kw)
+        for j in range(nreads):
+            off = rnd.randint(0, shape[0] // 2)
+            n = rnd.randint(2, shape[0] // 2)
+            chunks = rnd.choice([None, tuple(composition(k, rnd, 3) for k in (n,) + shape[1:]),
+                                 (composition(n, rnd, 4),) + (-1,) * (len(shape) - 1), (max(1, n // 3),) + (-1,) * (len(shape) - 1)])
+            kwr = {} if chunks is None else {"chunks": chunks}
+            c0 = ds.sentinel_count()
+            try:
+                zd = r.read(off, n, use_dask=True, **kwr)
+            except Exception as e:  # noqa
+                out.viol.append(("raises:reader", "dask read(%d, %d, chunks=%r) raised %r" % (off, n, chunks, e)))
+                continue
+            c1 = ds.sentinel_count()
+            zn = r.read(off, n)
+            _reader_event(out, None, zd, c0, c1)
+            out.note("driver_op:reader-span")
+            got = zd.compute(scheduler=rnd.choice(["synchronous", "threads"]))
+            for c, m, amb in dr.compare_signals(got, zn, False, "SpanReader.read(%d, %d, use_dask, chunks=%r)" % (off, n, chunks)):
+                out.viol.append(("%s:reader" % c, m))
     # 2. the repository's sample files through baseband
     data = os.path.join(repo, "tests", "data")
     opens = {"n": 0}
@@ -402,10 +570,11 @@ def run_readers(rnd, out, repo, nreads=6):
                 except Exception as e:  # noqa
                     out.note("reader_open_failed:" + name)
         for name, r in readers:
-            for j in range(2):
-                n = rnd.randint(1, min(16, len(r)))
+            for j in range(3):
+                n = rnd.randint(1, min(16, len(r))) if j == 0 else rnd.randint(min(8, len(r)), min(96, len(r)))
                 off = rnd.randint(0, len(r) - n)
-                chunks = rnd.choice([None, (-1,) + (1,) * (r.ndim - 1)])
+                chunks = [None, (-1,) + (1,) * (r.ndim - 1), (composition(n, rnd, 4),) + (-1,) * (r.ndim - 1)][(j + len(name)) % 3] \
+                    if j < 2 else (composition(n, rnd, 4),) + (-1,) * (r.ndim - 1)
                 kwr = {} if chunks is None else {"chunks": chunks}
                 c0 = opens["n"]
                 zd = r.read(off, n, use_dask=True, **kwr)
